@@ -1012,6 +1012,8 @@ static void on_proc_death(int spid)
 	if (spid == G.server_spid) { G.server_dead = true; count(p_server_died); for (size_t i = 0; i < G.conns.size(); i++) G.conns[i].server_gone = true; }
 	for (int k = 0; k < G.nclients; k++) if (G.cl[k].spid == spid) { G.cl[k].dead = true; count(p_client_died); if (G.cl[k].conn) G.cl[k].conn->client_gone = true; }
 	count(p_kill_fired);
+	// a process that died inside libqb leaves that library's static state (signal pipe, ...) behind in this OS process
+	request_recycle();
 }
 
 static int shm_leftovers(int server_spid, int client_spid, bool files_only, std::string &example)
